@@ -23,7 +23,7 @@ func init() {
 				"C01.rr (round-received needs all witnesses of the round decided, every famous witness seeing the event, at least a supermajority of them; first such round only; search starts at round(x)+1), " +
 				"C01.order (the consensus sort reads only Lamport timestamp and signature; Frame.Events is stored sorted), C01.inorder (rounds processed ascending, shared with C02.order), C01.roundonce (a decided round is turned into a block once, also across error exits: a node that delivers a round twice disagrees with its peers at every later index; shared with C02.once), C01.undecided (the search for the round received stops at the first round with undecided fame; it may go on only past a round i at or below the reset point of a fast-forwarded node, tested on i itself; shared with C04.undecided), C01.timestamp (a block's timestamp is a function of the decided round only: the median over the FAMOUS witnesses of the round received, written into the frame by GetFrame and into the block by NewBlock, by nobody else — the set of all witnesses a node happens to have registered differs between nodes; shared with C18.prov), C01.peers (a recorded validator set is never reordered or overwritten in place — by anybody, the HTTP service included: the peer-set hash a node writes into its blocks is computed over that slice; shared with C10.immutable). " +
 				"NOT covered: correctness of the voting scheme itself, the coin, that `break VOTE_LOOP` is order-independent, LRU eviction of RoundInfo objects."},
-		Rules: []ruleFunc{c01thr, c01pair, c01see, c01fame, c01rr, c01order, func(p *Prog, r *Report) { c02orderAs(p, r, "C01.inorder") }, func(p *Prog, r *Report) { onceRule(p, r, "C01.roundonce") }, c01peers, func(p *Prog, r *Report) { undecidedSkipRule(p, r, "C01.undecided") }, func(p *Prog, r *Report) { timestampRule(p, r, "C01.timestamp") }},
+		Rules: []ruleFunc{c01thr, c01pair, c01see, c01fame, c01rr, c01order, func(p *Prog, r *Report) { c02orderAs(p, r, "C01.inorder") }, func(p *Prog, r *Report) { onceRule(p, r, "C01.roundonce") }, c01peers, func(p *Prog, r *Report) { undecidedSkipRule(p, r, "C01.undecided") }, func(p *Prog, r *Report) { timestampRule(p, r, "C01.timestamp") }, func(p *Prog, r *Report) { mapPickRule(p, r, "C01.mappick", consensusFuncs) }, func(p *Prog, r *Report) { memberRule(p, r, "C01.member") }},
 	})
 	register(&propDef{
 		ID: "C04", NeedCG: true,
